@@ -90,8 +90,16 @@ def case_strategy(draw: Any, mode: str) -> Any:
     # distinct display names for the pool (both code and latex names are set so one case serves both modes)
     idxs = draw(st.lists(st.integers(0, len(CODE_NAMES) - 1), min_size=NSYM + 2, max_size=NSYM + 2, unique=True))
     assum = [draw(st.sampled_from(["none", "positive", "real", "positive", "integer"])) for _ in range(NSYM)]
-    shape = draw(st.integers(0, 9))
-    if shape == 0:
+    shape = draw(st.integers(0, 10))
+    if shape == 10:
+        # a bare symplyphysics Function with declared arguments / a bare IndexedSymbol, as the documentation's symbol
+        # tables render them (code_str/latex_str apply the function to its arguments, the indexed symbol to its index)
+        if draw(st.booleans()):
+            nargs = draw(st.integers(1, 3))
+            expr = ["funcsym", draw(st.integers(0, NFUN - 1)), draw(st.lists(st.integers(0, NSYM - 1), min_size=nargs, max_size=nargs, unique=True))]
+        else:
+            expr = ["idxsym", draw(st.integers(0, 1))]
+    elif shape == 0:
         rows = draw(st.integers(1, 2))
         cols = draw(st.integers(1, 2)) if rows == 2 else draw(st.integers(1, 3))
         if rows == 1 and cols == 1:
@@ -130,6 +138,7 @@ class Pool:
         self.qty = [Quantity(3 * units.meter, display_symbol="L_0", display_latex="L_0"),
             Quantity(units.boltzmann_constant, display_symbol="k_B0", display_latex="k_\\text{B0}")]
         self.funs = [Function(FUN_NAMES[k], display_latex=FUN_LATEX[k]) for k in case["funs"]]
+        self.render_object: Any = None  # set when the object handed to the printer differs from the expression it denotes
 
     def build(self, d: Any) -> Any:
         # pylint: disable=too-many-return-statements,too-many-branches
@@ -179,6 +188,17 @@ class Pool:
             v = self.syms[d[2]]
             f = self.funs[0](v) * b(d[1]) if not b(d[1]).has(v) else b(d[1])
             return sp.Derivative(f, (v, d[3]))
+        if op == "funcsym":
+            from symplyphysics import Function
+            k = d[1]
+            args = [self.syms[i] for i in d[2]]
+            f = Function(self.funs[k].display_name, args, display_latex=self.funs[k].display_latex)
+            self.render_object = f
+            return f(*args)
+        if op == "idxsym":
+            s = self.idx[d[1]]
+            self.render_object = s
+            return s[s.index]
         if op == "eq":
             return sp.Eq(b(d[1]), b(d[2]), evaluate=False)
         if op == "mat":
@@ -404,7 +424,12 @@ def _judge_generated(case: dict[str, Any], mode: str, render: Any, parse: Any, w
         return [], info
     info["nontrivial"] = nontrivial_expr(expr)
     info["depth"] = tree_depth(expr)
-    rt = round_trip(expr, mode, render, parse, wellformed)
+    if pool.render_object is not None:
+        obj = pool.render_object
+        rt = round_trip(expr, mode, lambda _e: render(obj), parse, wellformed)
+        info["nontrivial"] = True
+    else:
+        rt = round_trip(expr, mode, render, parse, wellformed)
     info["status"] = rt.status
     info["text"] = rt.text
     if rt.status in ("ok", "ill", "uninterpretable"):
